@@ -90,6 +90,7 @@ C01T = [("Mc.Props.C01", "Mc.C01." + t) for t in ["silent_ret", "C01_updateGroup
        [("Mc.Props.C01Converge", "Mc.applyUpdate_stamped"), ("Mc.Props.C01Converge", "Mc.merge_ext_fix")] + \
        [("Mc.Props.C01Manage", "Mc.C01." + t) for t in ["C01_manage_create_converges", "manage_create_loop", "C01_recreate_child_converges"]] + \
        [("Mc.Props.C01Update", "Mc.C01." + t) for t in ["C01_updated_child_is_settled", "applyUpdate_result_fix", "update_post_outside"]] + \
+       [("Mc.Proofs.WfPres", "Mc.C01." + t) for t in ["C01_updated_child_is_settled'", "applyUpdate_wfB", "update_post_wfB"]] + \
        [("Mc.Props.C01Update", "Mc.fix_of_editOutside"), ("Mc.Props.C01Update", "Mc.fix_obj_iff"), ("Mc.Props.C01Update", "Mc.applyUpdate_of_fix")] + \
        [("Mc.Props.C06", "Mc.C06.C06_equal_no_write"), ("Mc.Props.C05", "Mc.C05.C05_idempotent"), ("Mc.Props.C05", "Mc.C05.C05_self_merge"), ("Mc.Props.C05", "Mc.C05.C05_contains")]
 
